@@ -19,7 +19,11 @@ Definition misuse_msg (c : ctx) : option string :=
       | Err (EMsg m) => Some m
       | Ok a =>
           let o := apply_variant (x_variant c) (fa_opts a) in
-          if no_deps_value o then None
+          if no_deps_value o then
+            match p_items (s_inputs s) with
+            | ArgRecv _ _ _ _ :: _ => Some "Function cannot have a self receiver"
+            | _ => None
+            end
           else match p_items (s_inputs s) with
                | [] => Some no_receiver_msg
                | ArgRecv _ _ _ _ :: _ => Some "Function cannot have a self receiver"
